@@ -11,6 +11,7 @@ From GmsmVerif Require Import SM2.SM2ParamsTie Gen.SM2Params Gen.SM2SigParams.
 From GmsmVerif Require Import SM2.SM2SignExtra.
 From GmsmVerif Require SM2.SM2GroupMin.   (* minimal-premise versions; used qualified *)
 From GmsmVerif Require Import SM2.SM2Consumers.
+From GmsmVerif Require SM2.SM2Audit1.
 From GmsmVerif Require SM2.SM2Unconditional.   (* associativity proved: SM2/ECAssoc.v *)
 Import ListNotations.
 Open Scope Z_scope.
@@ -360,6 +361,39 @@ Theorem C01_x509_checkSignature_strict :
     exists r s, sig = sig_encode r s /\ 0 < r /\ 0 < s /\ Sm2Verify pub signed [] r s = true.
 Proof. exact x509_checkSignature_sound. Qed.
 Print Assumptions C01_x509_checkSignature_strict.
+
+(* ---- 13. "two signatures made with fresh randomness never share the same r": what is proved ----------------------
+   Distinct nonces k1, k2 in [1, n-1] with k1 + k2 <> n give points with different abscissae (p prime, associativity
+   - itself proved -, [n]G = O, [k]G finite); hence two signatures of the same digest that share r have k1 = k2, or
+   k1 + k2 = n, or abscissae that differ by exactly n (both lie in [0,p), p < 2n).  NOT proved (it is a probability
+   statement about the random reader, outside this technique): that fresh 40-byte reads make these three events
+   unlikely.  For different digests e1 <> e2 the relation is x([k1]G) - x([k2]G) = e2 - e1 (mod n) (C01_same_r_implies
+   covers e1 = e2).  The clause of the property is therefore PARTIAL. *)
+Theorem C01_distinct_nonces_distinct_x :
+  SM2GroupMin.P_prime -> SM2GroupMin.Add_assoc -> SM2GroupMin.G_order_divides_n -> SM2GroupMin.G_multiples_finite ->
+  forall k1 k2, 1 <= k1 < sm2_n -> 1 <= k2 < sm2_n -> k1 <> k2 -> k1 + k2 <> sm2_n ->
+    x_of (sm2_base_mul k1) <> x_of (sm2_base_mul k2).
+Proof. exact SM2Audit1.distinct_nonce_distinct_x. Qed.
+Print Assumptions C01_distinct_nonces_distinct_x.
+
+Theorem C01_same_r_nonce_cases_partial :
+  SM2GroupMin.P_prime -> SM2GroupMin.Add_assoc -> SM2GroupMin.G_order_divides_n -> SM2GroupMin.G_multiples_finite ->
+  forall d d' e k1 k2 r s1 s2,
+    1 <= k1 < sm2_n -> 1 <= k2 < sm2_n ->
+    sign_with_nonce d e k1 = Some (r, s1) -> sign_with_nonce d' e k2 = Some (r, s2) ->
+    k1 = k2 \/ k1 + k2 = sm2_n \/ Z.abs (x_of (sm2_base_mul k1) - x_of (sm2_base_mul k2)) = sm2_n.
+Proof. exact SM2Audit1.same_r_nonce_cases. Qed.
+Print Assumptions C01_same_r_nonce_cases_partial.
+
+(* ---- 14. PublicKey.Verify accepts what PrivateKey.Sign returns (the one-line corollary of 3 and 4) ------------- *)
+Theorem C01_Sign_then_PublicKey_Verify :
+  SM2GroupMin.P_prime -> SM2GroupMin.Add_assoc -> SM2GroupMin.G_order_divides_n -> SM2GroupMin.G_multiples_finite ->
+  SM2GroupMin.N_prime -> forall fuel d rho msg sig rho',
+    1 <= d <= sm2_n - 2 ->
+    Sign fuel (key_of d) rho msg = Ok (sig, rho') ->
+    PublicKey_Verify (ScalarBaseMult d) msg sig = true.
+Proof. exact SM2Audit1.Sign_then_PublicKey_Verify. Qed.
+Print Assumptions C01_Sign_then_PublicKey_Verify.
 
 (* ---- non-vacuity: concrete instances, evaluated ----------------------------------------------------------- *)
 (* key d = 1, digest 5, a stream whose first attempt gives k = 2 *)
